@@ -383,7 +383,14 @@ def explore(prop, tier, seed, spec):
              'known': known, 'gen': spec.get('gen', {}), 'stream': spec.get('stream', '')}
             for i in range(n_runs)]
     results = core.parallel_map('sim.driver', 'gen_and_run', args,
-                                timeout=spec.get('timeout', 180) * (3 if tier == 'thorough' else 1))
+                                timeout=spec.get('timeout', 180) * (3 if tier == 'thorough' else 1),
+                                keep_errors=True)
+    # a run that died or was killed by its time limit is the machinery's problem (exit 2) - unless other runs
+    # of the batch establish a violation: then the violation is what gets reported, and the dead runs are noted
+    errors = [r['harness_error'] for r in results if 'harness_error' in r]
+    results = [r for r in results if 'harness_error' not in r]
+    if errors and not any(r['viol'] for r in results):
+        raise core.HarnessError(errors[0])
     rep.absorb(results)
     exit_code = 0
     seen_sigs = set()
@@ -407,6 +414,10 @@ def explore(prop, tier, seed, spec):
               f"{v['detail'][:500]}")
         print(f'VIOLATION property={prop} replay={path}')
         exit_code = 1
+    if errors:
+        if exit_code != 1:
+            raise core.HarnessError(errors[0])
+        print(f'note: {len(errors)} further run(s) did not finish (time limit or dead worker); first: {errors[0][:300]}')
     extra = spec.get('extra')
     if extra is not None:
         code = extra(rep, tier, seed, known)
